@@ -113,19 +113,20 @@ def check_vector(v):
     else:
         A, B = _iv(a), _iv(v["b"])
         cmp("unique_intersect", v["unique"], outcome(lambda: _rows(unique_intersect(A, B, S))))
+        # the similarity measures are defined per base (masks), so the first set may hold nested, duplicated or overlapping intervals
+        sizes = {"chr1": S}
+        jn, jd = v["jaccard"]
+        if jd != 0 and a:
+            cmp("jaccard", jn / jd, outcome(lambda: float(jaccard(sizes, A, B))), a_disjoint=v["apre"])
+            cmp("Geometry.jaccard", jn / jd, outcome(lambda: float(Geometry(sizes).jaccard(A, B))), a_disjoint=v["apre"])
+        fn, fd = v["forbes"]
+        if fd != 0 and a:
+            cmp("forbes", fn / fd, outcome(lambda: float(forbes(sizes, A, B))), a_disjoint=v["apre"])
         if v["apre"]:
             cmp("count_overlap", v["overlap"], outcome(lambda: int(count_overlap(A, B))))
             if a:
                 cmp("intersect", v["intersect"], outcome(lambda: get_pileup(intersect(A, B), S).to_array().tolist()))
             sizes = {"chr1": S}
-            jn, jd = v["jaccard"]
-            if jd != 0 and a:
-                cmp("jaccard", jn / jd, outcome(lambda: float(jaccard(sizes, A, B))))
-                g = Geometry(sizes)
-                cmp("Geometry.jaccard", jn / jd, outcome(lambda: float(g.jaccard(A, B))))
-            fn, fd = v["forbes"]
-            if fd != 0 and a:
-                cmp("forbes", fn / fd, outcome(lambda: float(forbes(sizes, A, B))))
             # all pairs of three sets (the diagonal is not a pair and is not compared)
             JA = v["jaccardAll"]
             if a and v["third"] and all(JA[i][j][1] != 0 for i in range(3) for j in range(3)):
@@ -255,7 +256,7 @@ def run(ctx):
     ctx.exhaustive = True
     return ctx.finish(RULE, assumptions=[
         "merge_intervals is given intervals sorted by start (documented precondition); count_overlap, intersect, "
-        "jaccard, forbes are given sets that are each sorted and internally disjoint",
+        "count_overlap and intersect are given sets that are each sorted and internally disjoint (documented precondition); jaccard and forbes any first set",
         "intervals are non-empty (start < stop) and, except for clip inputs, inside the contig",
         "Jaccard/Forbes are only compared where the defining denominator is non-zero",
     ])
